@@ -184,15 +184,33 @@ def _consumes(node: ast.AST, params: set[str]) -> bool:
         fname = c.func.attr if isinstance(c.func, ast.Attribute) else getattr(c.func, "id", "")
         if fname in CONSUMERS:
             return True
-        if fname in ("len", "isinstance", "bool", "min", "max", "int", "str", "getattr", "type"):
+        if fname in ("len", "isinstance", "bool", "min", "max", "int", "str", "getattr", "type") or fname in NON_CONSUMING:
             continue
         involved = list(c.args) + ([c.func.value] if isinstance(c.func, ast.Attribute) else [])
         for a_ in involved:
-            if _names(a_) & params:
+            # names below a nested call are judged when the walk reaches that call (f(inp.peek(3)) hands f the bytes
+            # peeked, not the input)
+            if _names_outside_calls(a_) & params:
                 return True
-            if any(isinstance(x, ast.Attribute) and isinstance(x.value, ast.Name) and x.value.id == "self" for x in ast.walk(a_)):
+            if any(isinstance(x, ast.Attribute) and isinstance(x.value, ast.Name) and x.value.id == "self" for x in _walk_outside_calls(a_)):
                 return True
     return False
+
+
+# stream methods that look at the input without consuming it
+NON_CONSUMING = {"peek", "tell", "seekable", "readable", "fileno", "isatty", "getvalue", "getbuffer"}
+
+
+def _walk_outside_calls(node: ast.AST):
+    if isinstance(node, ast.Call):
+        return
+    yield node
+    for ch in ast.iter_child_nodes(node):
+        yield from _walk_outside_calls(ch)
+
+
+def _names_outside_calls(node: ast.AST) -> set[str]:
+    return {x.id for x in _walk_outside_calls(node) if isinstance(x, ast.Name)}
 
 
 def _all_paths_progress(body: list[ast.stmt], test_vars: set[str], params: set[str], has_exit: bool) -> bool:
